@@ -1,7 +1,9 @@
 """C55 — stretch_strobe_signal holds its output for exactly the requested number of cycles.
 
 DUT: a small wrapper Elaboratable that calls the real luna.gateware.utils.cdc.stretch_strobe_signal once per
-configuration (to_cycles, allow_delay), all fed from one shared strobe input.  Every case instantiates the complete
+configuration (to_cycles, allow_delay), all fed from one shared strobe input.  Per case the stretchers are placed in the
+default domain, in sync passed explicitly, or in another domain passed as domain= (then strobe, outputs and the cycle
+count are that domain's; sync runs at an unrelated faster/slower rate as a bystander and must not influence anything).  Every case instantiates the complete
 small grid to_cycles 1..6 x both allow_delay settings plus 8 random configurations with to_cycles in 1..40.
 Workload: phase 1 enumerates all 2^8 eight-cycle strobe patterns (each followed by 8 idle cycles, enough for the
 grid stretchers to drain) -> for the grid configurations every pattern is seen from the quiescent state;
@@ -16,11 +18,12 @@ from rv.sim import Bench
 
 PROPERTY = "C55"
 CASES = {"quick": 96, "thorough": 2000}
-RULE = ("case = 12 grid configs (to_cycles 1..6 x allow_delay) + 8 random configs (to_cycles 1..40) sharing one strobe stream: "
+RULE = ("case = domain mode (default / explicit sync / explicit other domain with unrelated sync clock) x 12 grid configs (to_cycles 1..6 x allow_delay) + 8 random configs (to_cycles 1..40) sharing one strobe stream: "
         "all 256 8-cycle patterns from quiescence, then 1500-3000 random cycles with adversarial spacings; "
         "non-trivial always (grid enumerated in every case); distinct = hash(random configs, random stream)")
 REQUIRED_BINS = ["grid_pattern_from_quiescence", "pulse_spacing_N_minus_1", "pulse_spacing_N", "pulse_spacing_N_plus_1",
-                 "long_high", "to_cycles_1", "to_cycles_ge_20", "allow_delay", "no_delay"]
+                 "long_high", "to_cycles_1", "to_cycles_ge_20", "allow_delay", "no_delay",
+                 "domain_default", "domain_explicit_sync", "domain_explicit_other", "other_domain_sync_faster", "other_domain_sync_slower"]
 REQUIRED_EVENTS = ["output_cycles_compared", "output_high_cycles", "strobes_driven"]
 ASSUMPTIONS = ["with allow_delay the window may start in the strobe cycle or one cycle later (fixed per configuration)"]
 
@@ -38,29 +41,47 @@ def run_case(rng, tier, res):
         def __init__(self):
             self.strobe = Signal()
             self.outs = [Signal(name="out_%d" % i) for i in range(len(configs))]
+            self.bystander = Signal()
 
         def elaborate(self, platform):
             m = Module()
+            # keep the sync domain alive in every mode (it is only a bystander when another domain is requested)
+            m.d.sync += self.bystander.eq(~self.bystander)
             for (n, d), o in zip(configs, self.outs):
+                kw = {}
+                if dom_mode == "explicit_sync":
+                    kw["domain"] = m.d.sync
+                elif dom_mode == "explicit_other":
+                    kw["domain"] = m.d.aux
                 if rng_use_output[0]:
-                    stretch_strobe_signal(m, self.strobe, to_cycles=n, output=o, allow_delay=d)
+                    stretch_strobe_signal(m, self.strobe, to_cycles=n, output=o, allow_delay=d, **kw)
                 else:
-                    r = stretch_strobe_signal(m, self.strobe, to_cycles=n, allow_delay=d)
+                    r = stretch_strobe_signal(m, self.strobe, to_cycles=n, allow_delay=d, **kw)
                     m.d.comb += o.eq(r)
             return m
 
     rng_use_output = [rng.random() < 0.5]
+    # which clock domain the stretcher is asked to live in: the default, sync given explicitly, or another domain
+    # ("aux": strobe, outputs and "cycles" are all aux cycles; sync runs at an unrelated rate and must not matter)
+    dom_mode = rng.choice(["default", "explicit_sync", "explicit_other", "explicit_other"])
+    sync_freq = rng.choice([20e6, 180e6, 47e6, 120e6, 60e6 * 1.0001, 13e6]) if dom_mode == "explicit_other" else None
     dut = Wrapper()
+    res.bin("domain_" + dom_mode)
+    if sync_freq:
+        res.bin("other_domain_sync_faster" if sync_freq > 60e6 else "other_domain_sync_slower")
     for n, d in configs:
         res.bin("allow_delay" if d else "no_delay")
         if n == 1:
             res.bin("to_cycles_1")
         if n >= 20:
             res.bin("to_cycles_ge_20")
-    res.desc = {"random_configs": configs[12:], "output_param": rng_use_output[0]}
-    res.sig(configs)
+    res.desc = {"random_configs": configs[12:], "output_param": rng_use_output[0], "domain": dom_mode, "sync_freq": sync_freq}
+    res.sig(configs, dom_mode, sync_freq)
 
-    b = Bench(dut, domain="sync", freq=60e6, max_cycles=400000)
+    if dom_mode == "explicit_other":
+        b = Bench(dut, domain="aux", freq=60e6, clocks={"sync": sync_freq}, max_cycles=400000)
+    else:
+        b = Bench(dut, domain="sync", freq=60e6, max_cycles=400000)
     from amaranth import Cat
     allouts = Cat(*dut.outs)          # one sampled expression instead of 20 (sampling cost dominates)
     b.watch(dut.strobe, allouts)
